@@ -7,8 +7,10 @@ toolchain go1.26.8
 require (
 	github.com/anishathalye/porcupine v1.3.0
 	github.com/bytom/bytom v0.0.0
+	github.com/google/uuid v1.2.0
 	github.com/sirupsen/logrus v1.8.1
 	github.com/tendermint/go-wire v0.16.0
+	github.com/tendermint/tmlibs v0.9.0
 	golang.org/x/crypto v0.0.0-20210322153248-0c34fe9e7dc2
 	golang.org/x/tools v0.0.0-20201224043029-2b0845dc783e
 	pgregory.net/rapid v1.3.0
@@ -22,7 +24,6 @@ require (
 	github.com/golang/groupcache v0.0.0-20210331224755-41bb18bfe9da // indirect
 	github.com/golang/protobuf v1.4.3 // indirect
 	github.com/golang/snappy v0.0.3 // indirect
-	github.com/google/uuid v1.2.0 // indirect
 	github.com/grandcat/zeroconf v0.0.0-20190424104450-85eadb44205c // indirect
 	github.com/hashicorp/go-version v1.3.0 // indirect
 	github.com/holiman/uint256 v1.2.0 // indirect
@@ -31,7 +32,6 @@ require (
 	github.com/pborman/uuid v1.2.1 // indirect
 	github.com/pkg/errors v0.9.1 // indirect
 	github.com/syndtr/goleveldb v1.0.1-0.20200815110645-5c35d600f0ca // indirect
-	github.com/tendermint/tmlibs v0.9.0 // indirect
 	golang.org/x/net v0.0.0-20210410081132-afb366fc7cd1 // indirect
 	golang.org/x/sync v0.0.0-20210220032951-036812b2e83c // indirect
 	golang.org/x/sys v0.0.0-20210412220455-f1c623a9e750 // indirect
